@@ -179,7 +179,7 @@ def case_pin(spec):
     R = random.Random(spec["seed"])
     cs = spec["cs"]
     probs = []
-    n_dec = n_must = 0
+    n_dec = n_must = n_graze = 0
     for _ in range(spec["n"]):
         d = R.randrange(1, 10)
         x, y = R.randrange(1 << d), R.randrange(1 << d)
@@ -198,6 +198,34 @@ def case_pin(spec):
         la0 = max(-math.pi / 2, B - h * R.uniform(0.05, 0.95))
         la1 = min(math.pi / 2, la0 + h)
         box = (lon0, lon0 + w, la0, la1)
+        if R.random() < 0.35:
+            # a LARGE box that only grazes a DEEP tile: it reaches just past the tile's outermost pixel centre (by a few
+            # nanoradians to half a microradian) and extends away from the tile. At depth >= 13 that pixel centre is less than
+            # a microradian inside the tile's own bounding box.
+            d = R.randrange(13, 19)
+            x, y = R.randrange(1 << d), R.randrange(1 << d)
+            p = (d, x, y)
+            t = _single(cs, p)
+            from toasty import toast as _toast
+
+            lon, lat = _toast.toast_tile_get_coords(t)
+            if np.abs(lat).max() > 1.45 or lon.max() - lon.min() > 1.0:
+                continue
+            delta = 10 ** R.uniform(-8.5, -6.4)
+            w, h = 10 ** R.uniform(-3, -2), 10 ** R.uniform(-3, -2)
+            side = R.choice(["top", "bottom", "left", "right"])
+            if side in ("top", "bottom"):
+                i, j = np.unravel_index(np.argmax(lat) if side == "top" else np.argmin(lat), lat.shape)
+                L, B = float(lon[i, j]), float(lat[i, j])
+                la0, la1 = (B - delta, min(math.pi / 2, B + h)) if side == "top" else (max(-math.pi / 2, B - h), B + delta)
+                lon0 = L - w / 2
+                box = (lon0, lon0 + w, la0, la1)
+            else:
+                i, j = np.unravel_index(np.argmax(lon) if side == "right" else np.argmin(lon), lon.shape)
+                L, B = float(lon[i, j]), float(lat[i, j])
+                lon0, lon1 = (L - delta, L + w) if side == "right" else (L - w, L + delta)
+                box = (lon0, lon1, max(-math.pi / 2, B - h / 2), min(math.pi / 2, B + h / 2))
+            n_graze += 1
         if not inside_box(np.array([L]), np.array([B]), box).all():
             continue
         f = _latlon_tile_filter(*box)
@@ -210,7 +238,7 @@ def case_pin(spec):
                 probs.append((key + cs, "pin-point box %r around pixel (%d,%d) of tile %s: %s %s is rejected" % (box, i, j, p, "tile" if q == p else "ancestor", q)))
         if len(probs) > 6:
             break
-    r = dict(counters=dict(pin_decisions=n_dec, pin_must_accept=n_must), nontrivial=n_must > 0, sample=dict(spec=spec))
+    r = dict(counters=dict(pin_decisions=n_dec, pin_must_accept=n_must, grazing_boxes_on_deep_tiles=n_graze), nontrivial=n_must > 0, sample=dict(spec=spec))
     return _fin(r, probs)
 
 
